@@ -240,6 +240,7 @@ structure DOK (c : Chart) : Prop where
   parProper : ∀ s, (Large.st c s).typ = .parallel → ∀ k ∈ (Large.st c s).completion, (Large.st c k).typ.isPseudo = false
   rootComplAsc : Asc (Large.st c 0).completion
   parKind : ∀ s, (Large.st c s).typ = .parallel → (Large.st c s).kind = .parallel
+  rootCompound : (Large.st c 0).typ = .compound
 
 /-- what a visit establishes for the visited state, relative to the entry set `E` -/
 def Post (c : Chart) (e : EState) (exitS : List Nat) (E : List Nat) (s : Nat) : Prop :=
